@@ -27,7 +27,7 @@ UTC = datetime.timezone.utc
 EXOTIC = (datetime.date, datetime.time, datetime.timedelta, decimal.Decimal)     # datetime is a date
 
 HDR = ("From DD Require Import Base.PyStr Path.PathModel Diff.XuValue Diff.XuTree Diff.XuModel Diff.XuTextView "
-       "Diff.XuSpec Diff.XuHash Diff.XuShow.")
+       "Diff.XuSpec Diff.XuHash Diff.XuShow Diff.XuEmpty Diff.XuObs Diff.XuSpecNorm Diff.XuEmptyNorm.")
 
 
 # ---------------------------------------------------------------------------
@@ -296,6 +296,13 @@ def model_tree_expr(t1, t2, zip_, thr, ip=True):
 def model_text_expr(t1, t2, zip_, thr, verbose, ip=True):
     run, reprs, strs = run_expr(t1, t2, zip_, thr, ip)
     return "sx_text (text_view (tbl_atom %s) (tbl_atom %s) %d (fst %s))" % (reprs, strs, verbose, run)
+
+
+def spec_n_expr(t1, t2, ip):
+    """Diff/XuSpecNorm.v spec_n_diff: the definition with naive datetime leaves read as UTC (no leaf guard)"""
+    reprs, strs, _ = oracle_tables(t1, t2)
+    return "sx_text (spec_n_diff (tbl_atom %s) (tbl_atom %s) (tbl_udiff %s) %s %s %s)" % (
+        reprs, strs, D.coq_udiff_table(D.udiff_table(t1, t2)), "true" if ip else "false", to_coq(t1), to_coq(t2))
 
 
 def spec_expr(t1, t2, ip):
@@ -660,7 +667,77 @@ def atom_cases(rng, n):
             text = DeepHash(a, apply_hash=False)[a]
             cases.append(("sx_str (exotic_text (tbl_atom %s) (tbl_secs %s) %s)" % (strs, secs, atom_to_coq(a)), text,
                           {"what": "DeepHash pre-hash text", "a": repr(a)}))
+    # the oracle hypotheses of Diff/XuHashSound.v observed on Python's str(): injective within a kind (on the normalised
+    # datetimes), str(seconds) injective in the time of day, and never the same text for a datetime / a time's seconds / a date
+    from deepdiff.helper import time_to_seconds
+    ex = [a for a in pool if is_exotic(a)]
+    dts = {fields(normalised(a)): str(normalised(a)) for a in ex if isinstance(a, datetime.datetime)}
+    dates = {fields(a): str(a) for a in ex if isinstance(a, datetime.date) and not isinstance(a, datetime.datetime)}
+    tds = {fields(a): str(a) for a in ex if isinstance(a, datetime.timedelta)}
+    decs = {fields(a): str(a) for a in ex if isinstance(a, decimal.Decimal)}
+    secs = {fields(a)[1]: str(time_to_seconds(a)) for a in ex if isinstance(a, datetime.time)}
+    inj = all(len(set(d.values())) == len(d) for d in (dts, dates, tds, decs, secs))
+    apart = not (set(dts.values()) & set(secs.values())) and not (set(dts.values()) & set(dates.values())) and not (set(secs.values()) & set(dates.values()))
+    cases.append(("sx_bool true", bool(inj and apart), {"what": "str() oracle hypotheses (injective per kind, kinds apart)", "n": len(ex)}))
     return cases
+
+
+def _has_private(v):
+    if isinstance(v, dict):
+        return any((isinstance(k, str) and k.startswith("__")) or _has_private(x) for k, x in v.items())
+    if isinstance(v, (list, tuple)):
+        return any(_has_private(x) for x in v)
+    return False
+
+
+def set_members(*vals):
+    out = []
+
+    def walk(v):
+        if isinstance(v, (set, frozenset)):
+            out.extend(v)
+        elif isinstance(v, (list, tuple)):
+            for x in v:
+                walk(x)
+        elif isinstance(v, dict):
+            for x in v.values():
+                walk(x)
+    for v in vals:
+        walk(v)
+    return out
+
+
+def hypothesis_cases(t1, t2, tag):
+    """the hash hypothesis of C02x_empty_sound_partial OBSERVED: on the set members of this pair that satisfy the guard
+    [ok_x k] (both k) the model of the real item hash gives equal hashes only to ==-equal members; and Python agrees
+    with the model's ok_x / py_eq on them (DeepHash run per member on a fresh table)"""
+    from deepdiff import DeepHash
+    ms = set_members(t1, t2)
+    out = []
+    _r, strs, secs = oracle_tables(*ms)
+    for k in ((True, False) if ms else ()):
+        out.append(("sx_bool (hash_separates (hatom_x %s %s) (filter (ok_x %s) %s))" % (strs, secs, "true" if k else "false", coq_list(atom_to_coq(a) for a in ms)),
+                    True, dict(tag, what="hash hypothesis observed", k=k)))
+    # the opcode hypothesis (valid_ops) observed on difflib's answers for lists of exotic atoms
+    for cp, ops in opcode_table(t1, t2):
+        xs, ys = t1, t2
+        for tg, x in cp:
+            xs, ys = xs[x], ys[x]
+        out.append(("sx_bool (valid_opcodes %s [%s] [%s])" % (
+            coq_list("mkOp %s %d %d %d %d" % (D.TAGS[o[0]], o[1], o[2], o[3], o[4]) for o in ops),
+            "; ".join(to_coq(x) for x in xs), "; ".join(to_coq(y) for y in ys)), True, dict(tag, what="difflib opcodes valid (extended universe)")))
+    # the same on the implementation: members inside the guard with one DeepHash are ==
+    def ok_py(a, k):
+        if isinstance(a, datetime.datetime):
+            return (a.tzinfo is not None) == k
+        if isinstance(a, datetime.time):
+            return a.tzinfo is None
+        return not (isinstance(a, str) and (a == "NONE" or ":" in a))
+    hs = [(a, DeepHash(a)[a]) for a in ms]
+    for k in ((True, False) if ms else ()):
+        good = all((not (ha == hb)) or a == b for a, ha in hs for b, hb in hs if ok_py(a, k) and ok_py(b, k))
+        out.append(("sx_bool true", good, dict(tag, what="hash hypothesis on the implementation (DeepHash per member)", k=k)))
+    return out
 
 
 def stream_c02(ctx, pairs):
@@ -673,6 +750,22 @@ def stream_c02(ctx, pairs):
             continue
         ctx.count("xu:c02:" + ":".join(kind.split("@")[0].split(":")[:2]))
         cases += pair_cases(ctx, t1, t2, kind, zips=(rng.random() < 0.5,), thrs=(rng.choice([0, 0.33, 1]),), verboses=(rng.choice([1, 2]),))
+        # the CONCLUSION of C02x_empty_sound_unguarded observed: DeepDiff empty (default options) and set members inside the hash guard
+        # => the model's py_eqv on the leaf-normalised values is true; and Python's == on the inputs decides py_eqv
+        r0 = run_dd(copy.deepcopy(t1), copy.deepcopy(t2))
+        if not isinstance(r0, Exception):
+            if r0 == {} and set_members_hash_safe(t1, t2) and not _has_private(t1) and not _has_private(t2):
+                ctx.count("xu:c02:unguarded_conclusion_observed")
+                cases.append(("sx_bool (py_eqv (normL %s) (normL %s))" % (to_coq(t1), to_coq(t2)), True,
+                              {"what": "empty diff => == after reading naive datetime leaves as UTC", "t1": repr(t1)[:300], "t2": repr(t2)[:300]}))
+            try:
+                eq = bool(t1 == t2)
+                cases.append(("sx_bool (py_eqv %s %s)" % (to_coq(t1), to_coq(t2)), eq, {"what": "py_eqv vs Python ==", "t1": repr(t1)[:300], "t2": repr(t2)[:300]}))
+            except Exception:  # noqa
+                pass
+        hc = hypothesis_cases(t1, t2, {"t1": repr(t1)[:300], "t2": repr(t2)[:300], "kind": kind})
+        ctx.count("xu:c02:hash_hypothesis_observed", len(hc))
+        cases += hc
     cases += atom_cases(rng, 2400 if ctx.thorough else 300)
     for c in cases[:1]:
         ctx.sample(c[2])
@@ -748,6 +841,9 @@ def stream_c03(ctx, pairs):
             cm.append(("SA \"a result inside the universe\"", "result cannot be canonicalised: " + repr(e)[:200], tag))
             continue
         cm.append((model_text_expr(a, b, True, 0, 2, ip), obs, dict(tag, what="model vs implementation")))
+        if set_members_hash_safe(t1, t2):
+            ctx.count("xu:c03:coqspec_n_vs_impl")
+            cs.append((spec_n_expr(a, b, ip), obs, dict(tag, what="coq spec_n (no leaf guard) vs implementation")))
         if dt_normal(t1, t2) and set_members_hash_safe(t1, t2):
             ctx.count("xu:c03:coqspec_vs_impl")
             cs.append((spec_expr(a, b, ip), obs, dict(tag, what="coq spec vs implementation")))
